@@ -28,6 +28,7 @@ type state struct {
 	meta *metadata // Additional template metadata.
 
 	current *parse.BlockNode              // Current block, may be nil.
+	curName string                        // The name the current block was looked up by.
 	blocks  []map[string]*parse.BlockNode // Block scopes.
 	macros  map[string]*parse.MacroNode   // Imported macros.
 
@@ -202,17 +203,38 @@ func (s *state) getBlock(name string) *parse.BlockNode {
 	return nil
 }
 
-func (s *state) getParentBlock(name string) *parse.BlockNode {
-	rootFound := false
+// Method getParentBlock returns the block with the given name that comes next
+// after the definition cur, which is the one currently being rendered.
+func (s *state) getParentBlock(name string, cur *parse.BlockNode) *parse.BlockNode {
+	curFound := false
 	for _, blocks := range s.blocks {
 		if block, ok := blocks[name]; ok {
-			if rootFound {
+			if curFound {
 				return block
 			}
-			rootFound = true
+			curFound = block == cur
 		}
 	}
 	return nil
+}
+
+// Method renderBlock renders the body of the given block, which was looked up
+// by name, and returns the output. While the body is rendered the block is the
+// current block, and the current template is the one defining the block.
+func (s *state) renderBlock(name string, blk *parse.BlockNode) (Value, error) {
+	defer func(out io.Writer, tplName string, cur *parse.BlockNode, curName string) {
+		s.out, s.name, s.current, s.curName = out, tplName, cur, curName
+	}(s.out, s.name, s.current, s.curName)
+	buf := &bytes.Buffer{}
+	s.out = buf
+	if blk.Origin != "" {
+		s.name = blk.Origin
+	}
+	s.current, s.curName = blk, name
+	if err := s.walk(blk.Body); err != nil {
+		return nil, err
+	}
+	return buf.String(), nil
 }
 
 // Method walk is the main entry-point into template execution.
@@ -274,11 +296,10 @@ func (s *state) walk(node parse.Node) error {
 				}(s.name)
 				s.name = block.Origin
 			}
-			prev := s.current
-			s.current = block
-			defer func() {
-				s.current = prev
-			}()
+			defer func(cur *parse.BlockNode, curName string) {
+				s.current, s.curName = cur, curName
+			}(s.current, s.curName)
+			s.current, s.curName = block, name
 			return s.walk(block.Body)
 		}
 		// TODO: It seems this should never occur.
@@ -817,16 +838,9 @@ func (s *state) evalFunction(exp *parse.FuncExpr) (Value, error) {
 		if s.current == nil {
 			return nil, errors.New("not inside a block!")
 		}
-		name := s.current.Name
-		if blk := s.getParentBlock(name); blk != nil {
-			pout := s.out
-			buf := &bytes.Buffer{}
-			s.out = buf
-			if err := s.walk(blk.Body); err != nil {
-				return nil, err
-			}
-			s.out = pout
-			return buf.String(), nil
+		name := s.curName
+		if blk := s.getParentBlock(name, s.current); blk != nil {
+			return s.renderBlock(name, blk)
 		}
 		return nil, errors.New("Unable to locate block \"" + name + "\"")
 	case "block":
@@ -840,15 +854,7 @@ func (s *state) evalFunction(exp *parse.FuncExpr) (Value, error) {
 		}
 		name := CoerceString(val)
 		if blk := s.getBlock(name); blk != nil {
-			pout := s.out
-			buf := &bytes.Buffer{}
-			s.out = buf
-			err = s.walk(blk.Body)
-			if err != nil {
-				return nil, err
-			}
-			s.out = pout
-			return buf.String(), nil
+			return s.renderBlock(name, blk)
 		}
 		return nil, errors.New("Unable to locate block \"" + name + "\"")
 	}
